@@ -20,6 +20,7 @@ if TYPE_CHECKING:
     from exabgp.bgp.message.update.collection import RoutedNLRI
 
 from exabgp.bgp.message.action import Action
+from exabgp.logger import lazymsg, log
 from exabgp.bgp.message.update.nlri.nlri import _UNPARSED, NLRI
 from exabgp.protocol.family import AFI, SAFI
 from exabgp.protocol.ip import IP
@@ -384,7 +385,9 @@ class MPNLRICollection:
                 # Check if adding this NLRI would exceed maximum
                 if self._attr_len(len(payload) + len(packed_nlri)) > maximum:
                     if len(payload) == header_length:
-                        raise RuntimeError('NLRI too large for attribute size limit')
+                        # the attributes leave no room for even one prefix: nothing can be sent
+                        log.critical(lazymsg('update.pack.error reason=attributes_too_large'), 'parser')
+                        return
                     # Yield current payload and start new one
                     yield self._attribute_header(self._CODE_MP_REACH_NLRI, len(payload)) + payload
                     payload = header + packed_nlri
@@ -432,7 +435,9 @@ class MPNLRICollection:
             # Check if adding this NLRI would exceed maximum
             if self._attr_len(len(payload) + len(packed_nlri)) > maximum:
                 if len(payload) == header_length:
-                    raise RuntimeError('NLRI too large for attribute size limit')
+                    # the attributes leave no room for even one prefix: nothing can be sent
+                    log.critical(lazymsg('update.pack.error reason=attributes_too_large'), 'parser')
+                    return
                 # Yield current payload and start new one
                 yield self._attribute_header(self._CODE_MP_UNREACH_NLRI, len(payload)) + payload
                 payload = header + packed_nlri
